@@ -113,21 +113,21 @@ Proof.
   now apply static_build.
 Qed.
 
-(** * the taken_names argument: names never collide (outside F-C09c) *)
+(** * the taken_names argument: names never collide.  Since d208a4d
+    taken_names also holds every parameter's dashed spelling, so an automatic
+    short flag can never be a later parameter's command-line name. *)
 Section Build.
   Variable dc : deco.
   Variable pos : list string.
   Variable all : list param.
   Hypothesis Hdash : NoDup (map (fun p => dashed (p_name p)) all).
-  Hypothesis Hsteal : d_auto_short dc = true -> forall p, In p all ->
-    contains_char us (p_name p) = true -> String.length (dashed (p_name p)) <> 1.
 
   Definition is_short (x : string) : Prop :=
-    d_auto_short dc = true /\ String.length x = 1 /\ ~ In x (map p_name all).
+    ~ In x (map (fun p => dashed (p_name p)) all).
 
   Lemma build_nodup : forall ps pre taken seen,
     all = pre ++ ps ->
-    incl (map p_name all) taken -> incl seen taken -> NoDup seen ->
+    incl (map (fun p => dashed (p_name p)) all) taken -> incl seen taken -> NoDup seen ->
     (forall x, In x seen -> In x (map (fun p => dashed (p_name p)) pre) \/ is_short x) ->
     NoDup (seen ++ flat_map a_names (build_args dc pos ps taken)).
   Proof.
@@ -135,14 +135,13 @@ Section Build.
     - now rewrite app_nil_r.
     - set (a := arg_opts dc pos p taken). set (d := dashed (p_name p)).
       assert (Hp : In p all) by (rewrite Hall; apply in_or_app; right; now left).
+      assert (Dall : In d (map (fun p => dashed (p_name p)) all))
+        by (unfold d; apply in_map_iff; now exists p).
       assert (Dfresh : ~ In d seen).
-      { intros C. destruct (Hseen _ C) as [C'|(Au & Len & Nin)].
+      { intros C. destruct (Hseen _ C) as [C'|Nin].
         - rewrite Hall, map_app in Hdash. simpl in Hdash.
           apply (NoDup_app_disjoint _ _ d Hdash); [now left | assumption].
-        - destruct (contains_char us (p_name p)) eqn:Eu.
-          + now apply (Hsteal Au p Hp Eu).
-          + apply Nin. unfold d. change (dashed (p_name p)) with (translate_underscores (p_name p)).
-            rewrite translate_id by assumption. now apply in_map. }
+        - now apply Nin. }
       assert (Hall' : all = (pre ++ [p]) ++ ps) by now rewrite <- app_assoc.
       assert (Seen' : forall x, In x seen ->
                 In x (map (fun p => dashed (p_name p)) (pre ++ [p])) \/ is_short x).
@@ -175,38 +174,27 @@ Section Build.
           -- intros x Hx [<-|[<-|[]]]; [now apply Dfresh | apply Cfresh; now apply Hs].
         * intros x Hx. apply in_app_iff in Hx.
           destruct Hx as [Hx|[<-|[<-|[]]]]; [now apply Seen' | now left |].
-          right. split; [assumption | split; [reflexivity|]].
-          intros C. apply Cfresh. now apply Ht.
+          right. intros C. apply Cfresh. now apply Ht.
   Qed.
 End Build.
 
-Lemma no_steal_prop s : no_steal s = true ->
-  d_auto_short (s_deco s) = true -> forall p, In p (s_params s) ->
-  contains_char us (p_name p) = true -> String.length (dashed (p_name p)) <> 1.
-Proof.
-  unfold no_steal. intros H Au p Hp Eu. rewrite Au in H. simpl in H.
-  pose proof (proj1 (forallb_forall _ _) H p Hp) as Hp'. simpl in Hp'.
-  change "_"%char with us in Hp'. rewrite Eu in Hp'. simpl in Hp'.
-  apply negb_true_iff, Nat.eqb_neq in Hp'. assumption.
-Qed.
-
 Theorem names_distinct s :
-  wf_sig s = true -> no_steal s = true -> NoDup (flat_map a_names (get_arguments s)).
+  wf_sig s = true -> NoDup (flat_map a_names (get_arguments s)).
 Proof.
-  intros W Ns. destruct (wf_sig_parts s W) as (_ & _ & W3).
+  intros W. destruct (wf_sig_parts s W) as (_ & _ & W3).
   eapply Permutation_NoDup;
     [apply Permutation_flat_map, Permutation_sym, get_arguments_perm|].
-  apply (build_nodup (s_deco s) (fill_implicit_positionals s) (s_params s) W3
-           (no_steal_prop s Ns) (s_params s) [] (map p_name (s_params s)) []); auto;
-    try apply incl_refl; try constructor; intros x [].
+  apply (build_nodup (s_deco s) (fill_implicit_positionals s) (s_params s) W3 (s_params s) []
+           (map p_name (s_params s) ++ map (fun p => translate_underscores (p_name p)) (s_params s)) []);
+    auto; try (apply incl_appr, incl_refl); try constructor; intros x [].
 Qed.
 
 (** Under the guards the task is accepted and its tables have the closed form. *)
 Theorem sig_ctx_closed_form s :
-  wf_sig s = true -> no_steal s = true ->
+  wf_sig s = true ->
   add_args empty_ctx (get_arguments s) = Ok (T (get_arguments s)).
 Proof.
-  intros W Ns. apply add_args_closed_form, good_of_static.
+  intros W. apply add_args_closed_form, good_of_static.
   - now apply static_get_arguments.
   - now apply names_distinct.
 Qed.
